@@ -1030,15 +1030,21 @@ def emit_block(unit, loc, dlines, tmpl_where):
         raise AnchorLost('block end anchor not found: `%s`' % b_txt)
     mb = hits_b[0]
     blk = body[ma.start():mb.end()]
-    bm = bmask[ma.start():mb.end()]
+    for a, b in substs:
+        # whitespace-insensitive match of the text to rename; an awaited expression may be renamed to a
+        # parameter that stands for its (arbitrary) result (R8)
+        rx = re.compile(r'\s*'.join(re.escape(t) for t in a.split()))
+        hits = list(rx.finditer(blk))
+        if not hits:
+            raise AnchorLost('%s: subst text `%s` not found in block' % (name, a))
+        for h in reversed(hits):
+            pad = '\n' * blk[h.start():h.end()].count('\n')
+            blk = blk[:h.start()] + b + pad + blk[h.end():]
+        unit.rule_log.append({'rule': 'R8' if 'await' in a else 'R9', 'before': norm_ws(a)[:100], 'after': b, 'where': '%s block %s' % (rel, name)})
+    bm = code_mask(blk)
     code_only = ''.join(c if bm[k] else ' ' for k, c in enumerate(blk))
     if re.search(r'\.\s*await\b', code_only):
         raise Unsupported('%s: block contains .await' % name)
-    for a, b in substs:
-        if a not in blk:
-            raise AnchorLost('%s: subst text `%s` not found in block' % (name, a))
-        blk = blk.replace(a, b)
-        unit.rule_log.append({'rule': 'R9', 'before': a, 'after': b, 'where': '%s block %s' % (rel, name)})
     line0 = line_of(src, it.body_start + ma.start())
     text = 'fn %s%s { %s\n%s }' % (name, sig, blk, fall)
     unit.rule_log.append({'rule': 'R9', 'before': 'statements `%s` .. `%s` of %s' % (a_txt[:40], b_txt[:40], ' :: '.join(path)),
